@@ -102,7 +102,7 @@ def main(run: Run):
     run.assumptions.append("setclr_code assumes at most one register write strobe per cycle (guaranteed by C05's w_stb_exact at the same bus)")
     run.functions["amaranth_soc.gpio.Peripheral.elaborate"] = "per-configuration (bounded: pin count, widths, input_stages); flattened with the real bridge/registers/field actions"
     run.functions["amaranth_soc.gpio.Peripheral.Output._FieldAction.elaborate"] = "per-configuration, inside the flattened peripheral"
-    run_configs(run, __name__, cfgs)
+    run_configs(run, __name__, cfgs, must_accept=True)
     return run.finish(
         explanation="GPIO contract on the flattened peripheral: mode table, exact input delay (k-step from any state), set/clear "
                     "code table and direct write, mode write, reset, register packing - every clause with all other pins' signals "
